@@ -244,9 +244,10 @@ def parse_label(lab):
     return m.group(1), args
 
 
-def cover_walks_dag(g, edge_filter=None, lookahead=True):
+def cover_walks_dag(g, edge_filter=None, lookahead=True, max_len=None):
     """Edge cover for graphs that mostly progress (few cycles): every walk = shortest prefix from the
-    initial state to a node with unvisited edges, then a greedy extension through unvisited edges."""
+    initial state to a node with unvisited edges, then a greedy extension through unvisited edges
+    (the extension stops once the walk has max_len steps; what is left gets walks of its own)."""
     todo = {}
     total = 0
     for a, es in g.adj.items():
@@ -281,6 +282,8 @@ def cover_walks_dag(g, edge_filter=None, lookahead=True):
             walk = prefix(u)
             cur = u
             while True:
+                if max_len is not None and len(walk) >= max_len and len(walk) > len(prefix(u)):
+                    break
                 if cur in todo:
                     i = todo[cur].pop()
                     if not todo[cur]:
